@@ -224,5 +224,45 @@ pub fn run(out: &mut Out, thorough: bool, seed: u64) {
             format!("ok {}", hex(&agg.get_encoded().unwrap())),
         );
     }
+    // `aggregate` refuses a share of the wrong shape wherever it stands in the batch — first position included —
+    // and otherwise equals the fold from `aggregate_init`
+    {
+        use prio::field::Field128;
+        use prio::flp::gadgets::{Mul, ParallelSum};
+        use prio::flp::types::Histogram;
+        use prio::idpf::IdpfInput;
+        use prio::vdaf::poplar1::{Poplar1, Poplar1AggregationParam, Poplar1FieldVec};
+        let h: Prio3<Histogram<Field128, ParallelSum<Field128, Mul>>, XofTurboShake128, 32> = Prio3::new(2, 1, 3, Histogram::new(4, 2).unwrap()).unwrap();
+        for k in 1..=4usize {
+            for bad_at in 0..k {
+                for bad_len in [0usize, 3, 5] {
+                    let shares: Vec<OutputShare<Field128>> = (0..k).map(|i| OutputShare::from(rand_vec::<Field128>(&mut rng, if i == bad_at { bad_len } else { 4 }))).collect();
+                    let r = h.aggregate(&(), shares);
+                    out.oracle(r.is_err(), || format!("Prio3Histogram(4) aggregate: {} shares, the one at position {} has length {}", k, bad_at, bad_len), || "a batch with a wrong-length output share was aggregated".into());
+                    out.count("aggregate.wrong-shape");
+                }
+            }
+        }
+        let p = Poplar1::new_turboshake128(2);
+        let leaf = Poplar1AggregationParam::try_from_prefixes(vec![IdpfInput::from_bools(&[false, true]), IdpfInput::from_bools(&[true, true])]).unwrap();
+        let inner = Poplar1AggregationParam::try_from_prefixes(vec![IdpfInput::from_bools(&[false]), IdpfInput::from_bools(&[true])]).unwrap();
+        let good_leaf = || Poplar1FieldVec::Leaf(rand_vec::<Field255>(&mut Sm::new(7), 2));
+        let good_inner = || Poplar1FieldVec::Inner(rand_vec::<Field64>(&mut Sm::new(9), 2));
+        let bads_for_leaf: Vec<(&str, Poplar1FieldVec)> = vec![("an inner-level share", good_inner()), ("a leaf share of length 3", Poplar1FieldVec::Leaf(rand_vec::<Field255>(&mut rng, 3))), ("an empty leaf share", Poplar1FieldVec::Leaf(vec![]))];
+        for (what, bad) in &bads_for_leaf {
+            for k in 1..=3usize {
+                for bad_at in 0..k {
+                    let shares: Vec<Poplar1FieldVec> = (0..k).map(|i| if i == bad_at { bad.clone() } else { good_leaf() }).collect();
+                    let r = p.aggregate(&leaf, shares);
+                    out.oracle(r.is_err(), || format!("Poplar1 aggregate at the leaf level with 2 candidates: {} shares, position {} is {}", k, bad_at, what), || "aggregated".into());
+                    out.count("aggregate.wrong-shape");
+                }
+            }
+        }
+        let r = p.aggregate(&inner, vec![good_leaf()]);
+        out.oracle(r.is_err(), || "Poplar1 aggregate at an inner level: a single leaf share".to_string(), || "aggregated".into());
+        let r = p.aggregate(&inner, vec![good_inner(), good_inner()]);
+        out.oracle(r.is_ok(), || "Poplar1 aggregate at an inner level: two good shares".to_string(), || "refused".into());
+    }
     out.samples = out.ops.iter().step_by(out.ops.len() / 12 + 1).map(|s| s.chars().take(300).collect()).collect();
 }
